@@ -1048,13 +1048,6 @@ impl<Writer: Write> Muxer<Writer> {
                 // Use VP9 keyframe detection
                 let is_key = is_vp9_keyframe(data).unwrap_or(false);
 
-                // INV-104: VP9 keyframe detection must handle invalid frames gracefully
-                assert_invariant!(
-                    is_key || data.len() >= 3,
-                    "VP9 keyframe detection requires minimum frame size",
-                    "api::is_keyframe::vp9"
-                );
-
                 is_key
             }
         }
